@@ -87,3 +87,31 @@ func cmdCParse(c *ctx) {
 }
 
 func init() { commands["cparse"] = cmdCParse }
+
+// dumpdiff A B: first difference between the reflective dumps of the modules lowered from two WGSL files (debugging aid).
+func cmdDumpDiff(c *ctx) {
+	var ds []string
+	for _, f := range c.args {
+		b, _ := os.ReadFile(f)
+		m, res := frontEnd(string(b))
+		if m == nil {
+			fmt.Println("front end:", res)
+			return
+		}
+		ds = append(ds, dump(m))
+	}
+	a, b := ds[0], ds[1]
+	for i := 0; i < len(a) && i < len(b); i++ {
+		if a[i] != b[i] {
+			lo := i - 300
+			if lo < 0 {
+				lo = 0
+			}
+			fmt.Printf("differ at %d\nA: %s\nB: %s\n", i, a[lo:min(len(a), i+200)], b[lo:min(len(b), i+200)])
+			return
+		}
+	}
+	fmt.Println("same prefix; lengths", len(a), len(b))
+}
+
+func init() { commands["dumpdiff"] = cmdDumpDiff }
